@@ -55,7 +55,7 @@ type sameNameLong struct {
 }
 
 var unsupportedKinds = []string{"named uintptr", "named chan", "named func", "named complex128",
-"chan", "func", "complex64", "complex128", "uintptr", "unsafe.Pointer",
+	"chan", "func", "complex64", "complex128", "uintptr", "unsafe.Pointer",
 	"nil chan", "nil func", "struct{nil chan}",
 	"struct{chan}", "*struct{chan}", "struct{func}", "struct{[]complex128}", "struct{map[string]func}", "struct{*struct{chan}}", "[]chan", "struct{[]chan}", "map[string]chan", "[]interface{}{chan}",
 	// a Go int beyond the 32 bits of the wire type chosen for its kind: not representable as that type. The call
